@@ -322,6 +322,14 @@ def make_machine(ctx):
                                                     "c%s%s changed after %d rounds" % (k, nm, len(self.log)), case)
                     else:
                         self.first[ident] = res[k]
+                        if nm == "T":
+                            # first time this (strain field, key) is seen in this history: it must equal what a pristine
+                            # calculator object gives for the key requested alone
+                            fi, fa, _ = run_tasklist(ctx, DuckCalculator(self.full), strain, [k], case)
+                            if (np.max(np.abs(fi[k] - iso[k])) > 1e-9 * self.scales[field]
+                                    or np.max(np.abs(fa[k] - adi[k])) > 1e-9 * self.scales[field]):
+                                raise PropertyViolation("C04/history-dependence/vs-fresh-calculator",
+                                                        "c%s on a calculator that assembled other requests before differs from a fresh calculator" % k, case)
             nt = len(self.log) >= 2 and any(r["reuse"] for r in self.log[1:])
             ctx.case({"history": list(self.log)}, nt, classes=["history-round", "reuse" if reuse else "fresh-list"])
 
@@ -361,6 +369,10 @@ def replay(ctx, payload):
                             raise PropertyViolation("C04/history-dependence", "c%s%s changed" % (k, nm), c)
                     else:
                         first[ident] = res[k]
+                        if nm == "T":
+                            fi, fa, _ = run_tasklist(ctx, DuckCalculator(full), case["fields"][r["field"]], [k], c)
+                            if (np.max(np.abs(fi[k] - iso[k])) > 1e-9 * scales[r["field"]] or np.max(np.abs(fa[k] - adi[k])) > 1e-9 * scales[r["field"]]):
+                                raise PropertyViolation("C04/history-dependence/vs-fresh-calculator", "c%s differs from a fresh calculator" % k, c)
         return
     full = dict(case)
     for k in ("nu", "gam", "g", "pressures", "static_p", "cv"):
